@@ -146,12 +146,13 @@ def run(pid, tier, seed, replay):
         items.append((d, "", obs, "class"))
         cases.append({"d": sd, "cur": ""})
         sm = b.cls()
+        kept = DotGraphMachine(sm)         # ONE diagram object, asked again and again while the machine moves on
         rt.gv = {g: True for g in gen.GNAMES}
         rt.gv["none"] = True
         for s in d["states"]:
             value = harness.decode_value(s["value"]) if s.get("value") is not None else s["id"]
-            for how in ("placed", "driven", "started"):
-                if how == "placed":
+            for how in ("placed", "kept", "driven", "started"):
+                if how in ("placed", "kept"):
                     sm.current_state_value = value
                     inst = sm
                 elif how == "started":
@@ -167,7 +168,7 @@ def run(pid, tier, seed, replay):
                     if inst is None:
                         continue
                 try:
-                    obs = project(inst._graph())
+                    obs = project(kept() if how == "kept" else inst._graph())
                 except Exception as e:  # noqa: BLE001
                     chk.report({"kind": "diagram_failed", "what": "instance", "error": type(e).__name__, "how": how,
                                 "values": d["value_scheme"]},
@@ -209,5 +210,5 @@ def run(pid, tier, seed, replay):
                          "rule": ("random definitions of 1-5 states / up to 12 transitions (guards as cond and unless, multi-event, self, "
                                   "internal, parallel transitions, final states; state values of every kind incl. falsy ones, shared "
                                   "display names); the class and an instance in every state as current state, placed through the "
-                                  "setter, reached by real events and started there with start_value; distinct = (#states, #transitions, class-or-instance, #internal transitions)")})
+                                  "setter (drawn through a fresh diagram object and through one kept for the whole walk), reached by real events and started there with start_value; distinct = (#states, #transitions, class-or-instance, #internal transitions)")})
     return chk.finish()
